@@ -231,7 +231,7 @@ def patches_text(shims: list[str], shim_dir: Path) -> str:
     return "\n".join(f'{s} = {{ path = "{shim_dir / s}" }}' for s in shims)
 
 
-def copy_repo(dst: Path, profile: str, shims: list[str], shim_dir: Path, mount: bool, harness_dir: Path):
+def copy_repo(dst: Path, profile: str, shims: list[str], shim_dir: Path, mount: bool, harness_dir: Path, atomics: bool = False):
     """Copy the crates under test from /repo's working tree and adapt only the copy."""
     dst.mkdir(parents=True)
     for c in REPO_CRATES:
@@ -245,7 +245,9 @@ def copy_repo(dst: Path, profile: str, shims: list[str], shim_dir: Path, mount: 
         man += "\n[patch.crates-io]\n" + patches_text(shims, shim_dir) + "\n"
     (dst / "Cargo.toml").write_text(man)
     pin_enum_layouts(dst)
-    if mount:
+    if mount and atomics:
+        # only for the properties whose instances use atomic scheduling points (C12, C03): the
+        # wrappers double the symbolic-execution cost of everything that touches a stream
         instrument_atomics(dst)
         for rel, mods in MOUNTS.items():
             f = dst / rel
@@ -897,7 +899,7 @@ def concrete_playback(prop, kind, profile, harness, pretty, sc: Scratch, builds,
             repo_copy = root / "repo"
             hcopy = root / "harness"
             shutil.copytree(VERIF / "harness", hcopy)
-            copy_repo(repo_copy, mode, keep_shims, VERIF / "shims", True, hcopy)
+            copy_repo(repo_copy, mode, keep_shims, VERIF / "shims", True, hcopy, bool(b.get("atomics")))
             neutralise_unit_tests(repo_copy)
             ncwd = repo_copy
             modfile = hcopy / "mux" / (b["module_of"](harness))
@@ -978,7 +980,7 @@ def run_property(pid: str, tier: str, jobs: int, only: str | None, keep: bool, r
         build_failed = None
         for profile, hl in jobs_by_profile.items():
             repo_copy = sc.root / f"repo-{profile}"
-            copy_repo(repo_copy, profile, shims, VERIF / "shims", kind == "mux", VERIF / "harness")
+            copy_repo(repo_copy, profile, shims, VERIF / "shims", kind == "mux", VERIF / "harness", bool(spec.get("atomics")))
             names = sorted({h.name for h in hl})
             if kind == "ext":
                 ext = sc.root / f"ext-{profile}"
@@ -998,7 +1000,7 @@ def run_property(pid: str, tier: str, jobs: int, only: str | None, keep: bool, r
                 if keep:
                     log(tail[-3000:])
                 break
-            builds[(kind, profile)] = dict(cwd=cwd, pkg_args=pkg_args, ext_dir=spec.get("ext_dir", "ext"), module_of=spec.get("module_of", lambda h: spec.get("module", "")),
+            builds[(kind, profile)] = dict(cwd=cwd, pkg_args=pkg_args, ext_dir=spec.get("ext_dir", "ext"), atomics=bool(spec.get("atomics")), module_of=spec.get("module_of", lambda h: spec.get("module", "")),
                                            native_shims=spec.get("native_shims", ["tokio", "tracing", "tracing-attributes", "parking_lot"] if kind == "mux" else []))
             for h in hl:
                 if h.name not in metas:
